@@ -26,29 +26,36 @@ MANIFEST = dict(
          "into Lean on every run (Gen/TlvPy.lean) and Lean re-checks C16_generated_step_eq (translated loop body = Tlv.step seen through the yielded triple and the next offset), "
          "C16_generated_cond_eq, C16_generated_parse_eq (translated generator = Tlv.loop for every fuel: same triples, same way of ending) and C16_tlv_terminates_generated; "
          "a change of parse_tlv changes the generated text and either keeps these equalities or fails a proof obligation (code outside the translated subset: broken tie). "
-         "Proved in Lean (unbounded in input length, number of entries, columns and lines; 17 theorems in Props/C16.lean): "
+         "Proved in Lean (unbounded in input length, number of entries, columns and lines; Props/C16.lean, nothing stated-but-not-proved): "
          "C16_tlv_tiles - for EVERY function used as int() that rejects the empty string, every input string and all field widths, "
          "parse_tlv (with fix C16-a: negative length -> ValueError) ends normally or with ValueError, never runs out of fuel, the "
          "triplets' cells concatenate to the consumed prefix (to the whole input when it ends normally), each triplet starts inside the input exactly where the "
          "cells of its predecessors end, offsets strictly increase, every triplet is the slice of the input at its offset with the non-negative length int() read; "
          "C16_tlv_terminates - fuel |s|+1 suffices, any larger fuel gives the same result, at most |s| triplets (C16_tlv_needs_empty_rejected: the hypothesis on int('') is necessary); "
-         "C16_tlv_roundtrip / C16_tlv_roundtrip_pyint - if every tag and length fits its field and len_padding is '0' or a character int() strips, parsing the "
-         "generated text returns one (padded tag, len(value), value) per entry, in order; C16_tlv_refuses - generation fails iff something does not fit, and then with AssertionError; "
-         "C16_pyint_reads_padded / C16_pyint_rejects_empty - the int() model reads zero/blank padded decimals back; C16_fwf_roundtrip - for a layout with till = offset + size, pairwise "
+         "C16_tlv_roundtrip_pyint - WHATEVER text generate_tlv returns (any mapping, widths, paddings - no hypothesis on len_padding any more) parses back to one "
+         "(padded tag, len(value), value) per entry, in order (C16_tlv_roundtrip: the same for every int() that reads the fields padded with an accepted padding); "
+         "C16_tlv_accepts - a text is returned iff every tag and length fits its field and len_padding passes the probe int(pad+pad+'1') == 1 of fix C16-c; "
+         "C16_tlv_padding_probe_exact - the probe holds exactly for '0' and the characters int() strips (no working padding is refused: \\xa0, \\x85, U+2003 pass; signs, '_', other digits, \\x1c..\\x1f, letters fail); "
+         "C16_tlv_refuses - otherwise, and only then, generation fails, with AssertionError; C16_tlv_refuses_bad_padding - a len_padding failing the probe is refused for every mapping "
+         "(C16_tlv_badpad_refused: the former witness 'x' is refused, and the text the unfixed code wrote does not parse back); paddings outside the int() model's scope "
+         "(not Latin-1, not a listed blank - e.g. the decimal zero U+0660, which int() reads through) are answered `unsupported` by the model and covered by the evaluator only; "
+         "C16_pyint_reads_padded / C16_pyint_reads_accepted / C16_pyint_rejects_empty - the int() model reads zero/blank padded decimals back; C16_fwf_roundtrip - for a layout with till = offset + size, pairwise "
          "disjoint columns and a non-empty filler, parse_fwf_row returns one entry per column and every column written from the record or its mapping parses back to str(value) padded/truncated to the column size "
          "(C16_fwf_cell_size, C16_fwf_absent_is_filler: unwritten columns read back as filler); "
          "C16_fwf_every_row_once - if load_fwf returns, its accepted and rejected lists are exactly the non-blank lines, each classified once by the "
          "header/body/footer layout of its position, in file order, lengths add up, rejected entries carry their own line, validate=False rejects nothing. "
          "Counter-example theorems: C16_tlv_loop_cex / C16_tlv_overlap_cex (pre-fix step loops on 'AA-05', overlaps on '0-2'; C16_tlv_fixed_witnesses: now ValueError), "
-         "C16_fwf_rejected_midfile (fix C16-b), C16_tlv_badpad_cex (len_padding='x' emits text that does not parse back: open finding C16-c). "
+         "C16_fwf_rejected_midfile (fix C16-b). "
          "Differential only (streams tlv.int, tlv.parse, tlv.gen, fwf.parse, fwf.gen, fwf.load): the models themselves (int() on Latin-1 + listed blanks, slices, ljust/rjust/zfill, str() of str/int/bool/None), "
          "load_lines/file layer, eval'd validation and mapping expressions (theorems take them as arbitrary total functions; a fixed menu of 8 + 4 expressions is compared).",
-    note="model follows the tree with fixes C16-a (negative TLV length) and C16-b (failed_rows.append tuple) applied; "
+    note="model follows the tree with fixes C16-a (negative TLV length), C16-b (failed_rows.append tuple) and C16-c (generate_tlv refuses a len_padding that int() does not read through) applied; "
          "blank lines of a fixed-width file are skipped by load_fwf (neither accepted nor rejected) - the reading of 'every row' is 'every non-blank line'",
     design_ref="5/C16",
 )
 
-GOOD_LP = "0 \t\n\x0b\x0c\r\x85\xa0\u1680\u2000\u2001\u2002\u2003\u2004\u2005\u2006\u2007\u2008\u2009\u200a\u2028\u2029\u202f\u205f\u3000"  # '0' or a character int() strips
+# the paddings a caller may rely on: '0' and every character int() strips (the table Tlv.isIntSpace of the model, written out
+# here independently of the probe in generate_tlv; \x1c..\x1f are str.isspace() but int() does not strip them)
+GOOD_LP = "0 \t\n\x0b\x0c\r\x85\xa0\u1680\u2000\u2001\u2002\u2003\u2004\u2005\u2006\u2007\u2008\u2009\u200a\u2028\u2029\u202f\u205f\u3000"
 
 # ---------------------------------------------------------------------------
 # translator hook (A.1): regenerate Gen/TlvPy.lean from the source under test
@@ -147,7 +154,7 @@ def tlv_gen_line(c):
 
 def tlv_gen_canon(c):
     gen = impl()[1]
-    r = core.call(gen, dict(c["d"]), c["tl"], c["ll"], c["tp"], c["lp"])
+    r = core.call(gen, mapping_of(c), c["tl"], c["ll"], c["tp"], c["lp"])
     return "ok " + enc_str(r[1]) if r[0] == "ok" else "err " + r[1]
 
 
@@ -308,9 +315,9 @@ def fwf_load_canon(c):
 # ---------------------------------------------------------------------------
 # generators
 # ---------------------------------------------------------------------------
-TAGS = ["", "A", "B", "AB", "01", "Tag", "T9 ", "é", "-1", "abcd", "abcde"]
+TAGS = ["", "A", "B", "AB", "01", "Tag", "T9 ", "é", "-1", "abcd", "abcde", "?A", "?1", "1", "a/b", "[0]", "*", ".."]
 PADS_T = [" ", " ", "_", "0", ".", "é"]
-PADS_L = ["0", "0", "0", " ", " ", "\t", "\xa0", "x", "-", "+", "1", "_"]
+PADS_L = ["0", "0", "0", " ", " ", "\t", "\n", "\x0c", "\xa0", "\u2003", "\x85", "\u3000", "\x1c", "\x1f", "x", "-", "+", "1", "_", "9", "\u0660", "\uff10", "\uff11"]
 
 
 def gen_value(rng):
@@ -338,7 +345,10 @@ def gen_tlv_case(rng):
                 seen.add(t)
                 out.append([t, v])
         d = out
-    return {"d": d, "tl": tl, "ll": ll, "tp": rng.choice(PADS_T), "lp": rng.choice(PADS_L)}
+    c = {"d": d, "tl": tl, "ll": ll, "tp": rng.choice(PADS_T), "lp": rng.choice(PADS_L)}
+    if rng.random() < 0.3:
+        c["cls"] = "n0"
+    return c
 
 
 SOUP = ["0", "0", "1", "2", "5", "9", "-", "+", " ", "a", "A", "_", "\t", "é"]
@@ -369,10 +379,12 @@ INT_RARE = ["\u0663", "\uff11", "\u20ac"]  # outside the model's scope (Unicode 
 
 NAMES = ["a", "b", "c", "id", "name", "zz"]
 ROW_AL = "ab 01X-9é"
+ROW_ODD = "\x0b\x0c\x1c\x1d\x1e\x85\u2028\u2029"  # line breaks for str.splitlines(), ordinary characters for a file read
 
 
 def gen_row_text(rng):
-    return "".join(rng.choice(ROW_AL) for _ in range(rng.choice([0, 1, 3, 5, 6, 8, 10, 12])))
+    al = ROW_AL + ROW_ODD if rng.random() < 0.1 else ROW_AL
+    return "".join(rng.choice(al) for _ in range(rng.choice([0, 1, 3, 5, 6, 8, 10, 12])))
 
 
 def gen_pfmt(rng, allow_empty=True):
@@ -478,15 +490,28 @@ def gen_load_case(rng):
 # ---------------------------------------------------------------------------
 # C: the statement on the implementation
 # ---------------------------------------------------------------------------
+def mapping_of(c):
+    """the str-to-str mapping of a TLV case: a plain dict, or the library's own n0dict (cls == 'n0'), for which
+    d[key] is an xpath lookup while items() is not"""
+    d = dict((k, v) for k, v in c["d"])
+    if c.get("cls") == "n0":
+        from n0struct import n0dict
+
+        return n0dict(d)
+    return d
+
+
 def fits(c):
     return all(len(t) <= c["tl"] and len(str(len(v))) <= c["ll"] for t, v in c["d"])
 
 
 def check_tlv_roundtrip(c):
-    """round trip under Fits, refusal otherwise"""
+    """generate/parse round-trip, or the generator refuses: whatever text comes out parses back; an entry that does not
+    fit is refused; a mapping that fits is not refused when len_padding is '0' or a character int() strips (GOOD_LP); any
+    other padding may be refused (with AssertionError) but must never yield text that does not parse back"""
     parse_tlv, gen = impl()[0], impl()[1]
     d = dict((k, v) for k, v in c["d"])
-    r = core.call(gen, d, c["tl"], c["ll"], c["tp"], c["lp"])
+    r = core.call(gen, mapping_of(c), c["tl"], c["ll"], c["tp"], c["lp"])
     if not fits(c):
         if r[0] == "ok":
             return {"what": "an entry does not fit its field but text was emitted", "text": r[1]}
@@ -494,7 +519,11 @@ def check_tlv_roundtrip(c):
             return {"what": "refusal with an unexpected class", "raised": r[1]}
         return None
     if r[0] != "ok":
-        return {"what": "every entry fits but generation raised", "raised": r[1]}
+        if c["lp"] in GOOD_LP:
+            return {"what": "every entry fits and the padding is '0' or a blank int() strips but generation raised", "raised": r[1]}
+        if r[1] != "AssertionError":
+            return {"what": "refusal with an unexpected class", "raised": r[1]}
+        return None
     want = [(t.ljust(c["tl"], c["tp"]), len(v), v) for t, v in d.items()]
     trips, status = run_tlv(r[1], c["tl"], c["ll"], budget=len(r[1]) + 2)
     got = [(a, b, v) for a, b, v, _ in trips]
@@ -612,23 +641,15 @@ EVALUATORS = {
 
 
 # ---------------------------------------------------------------------------
-# known findings
+# known findings: none open (C16-c is fixed)
 # ---------------------------------------------------------------------------
-def bad_len_padding(c, detail=None):
-    """class of C16-c: len_padding is neither '0' nor a character that int() strips"""
-    if isinstance(c, dict) and "lp" in c and c["lp"] not in GOOD_LP:
-        if detail is None or (isinstance(detail, dict) and detail.get("what") == "generated text does not parse back"):
-            return "C16-c"
-    return None
-
-
-CLASSIFIERS = {"bad_len_padding": bad_len_padding}
+CLASSIFIERS = {}
 
 
 def witness_fails(finding):
     w = finding["witness"]
     core.import_repo()
-    if finding["class"] == "bad_len_padding":
+    if isinstance(w, dict) and "lp" in w and "d" in w:
         return check_tlv_roundtrip(w) is not None
     return True
 
@@ -657,7 +678,7 @@ def _valid(evaluator, c):
 
 def shrink_failure(evaluator, case):
     fn = EVALUATORS[evaluator]
-    return core.shrink(case, lambda c: _valid(evaluator, c) and fn(c) is not None and not bad_len_padding(c))
+    return core.shrink(case, lambda c: _valid(evaluator, c) and fn(c) is not None)
 
 
 CANON = {"tlv.int": int_canon, "tlv.parse": tlv_parse_canon, "tlvpy.parse": tlvpy_parse_canon, "tlv.gen": tlv_gen_canon, "fwf.parse": fwf_parse_canon, "fwf.gen": fwf_gen_canon, "fwf.load": fwf_load_canon}
@@ -748,7 +769,7 @@ def _run(ctx):
     rng = ctx.rng("parse")
     pcases = [{"s": s, "tl": tl, "ll": ll} for s, tl, ll in [("AA-05", 2, 3), ("0-2", 1, 2), ("AA005ab", 2, 3), ("", 2, 3), ("A", 2, 3), ("01002P2020020103005100000900201220021023007DEFAULT", 2, 3), ("002P200201005100000020100210007DEFAULT", 0, 3), ("5", 0, 0), ("a", 1, 0), ("+0+0", 0, 2), ("0_1x", 0, 3)]]
     for c in gcases:
-        r = core.call(gen_tlv, dict((k, v) for k, v in c["d"]), c["tl"], c["ll"], c["tp"], c["lp"])
+        r = core.call(gen_tlv, mapping_of(c), c["tl"], c["ll"], c["tp"], c["lp"])
         if r[0] == "ok":
             s = r[1]
             if len(s) > 400:
@@ -798,7 +819,8 @@ def _run(ctx):
     ctx.correspond("fwf.load", lcases, fwf_load_line, fwf_load_canon, nontrivial=lambda c: len(c["lines"]) > 1)
 
     # ---- C1: TLV round trip / refusal
-    ctx.evaluate("tlv_roundtrip", gcases, check_tlv_roundtrip, in_known=bad_len_padding, nontrivial=lambda c: len(c["d"]) > 0)
+    ctx.evaluate("tlv_roundtrip", gcases, check_tlv_roundtrip, nontrivial=lambda c: len(c["d"]) > 0)
+    ctx.extra["tlv_roundtrip_paddings"] = {"must be accepted ('0' / a blank int() strips)": sum(1 for c in gcases if c["lp"] in GOOD_LP), "anything else (refused, or round-trips)": sum(1 for c in gcases if c["lp"] not in GOOD_LP)}
     # ---- C2: termination and tiling on arbitrary input
     ctx.evaluate("tlv_tiling", pcases, check_tlv_tiling, nontrivial=lambda c: len(c["s"]) > c["tl"] + c["ll"])
     ctx.evaluate("tlv_tiling/exhaustive", ex, check_tlv_tiling, nontrivial=lambda c: len(c["s"]) > c["tl"] + c["ll"])
@@ -822,7 +844,7 @@ def _run(ctx):
         "validations / mapping expressions of a fixed-width layout are eval'd Python; theorems take them as arbitrary total functions, the correspondence compares a fixed menu of 8 + 4 expressions",
         "load_fwf is modelled over the list of lines load_lines yields; the implementation side reads a real file (text mode, EOL '\\n')",
         "fixed-width offsets, widths and sizes are non-negative integers or None; record values are str, int, bool or None",
-        "model and theorems follow the tree with fixes C16-a and C16-b applied",
+        "model and theorems follow the tree with fixes C16-a, C16-b and C16-c applied",
     ]
     ctx.extra["trusted_base"] = [
         "hand-written models lean/N0Verif/Model/Tlv.lean, Model/Fwf.lean (differentially validated by the streams above)",
